@@ -5,3 +5,4 @@ import SsoModel.Caches
 import SsoModel.Validators
 import SsoModel.Prim.Base64
 import SsoModel.Seal
+import SsoModel.Config
